@@ -272,7 +272,7 @@ Theorem source_facts :
   src_max_date_len = 127 /\ src_written_date_format = [37; 89; 47; 37; 109; 47; 37; 100] /\
   src_format_cache_exact_match = true /\
   src_year_directive_unconditional = true /\ src_year_directive_month = 12 /\ src_year_directive_day = 31 /\
-  src_file_end_restores_front_only = true.
+  src_file_end_unwinds_own_stack = true.
 Proof. split; [exact default_readers_eq | exact source_switches]. Qed.
 Print Assumptions source_facts.
 
@@ -291,36 +291,37 @@ Print Assumptions end_apply_restores_clock.
 
 (* ---- included files.  final_state st evs is the state (current date, the apply stack of the file
    being read, those of the including files) after the events evs; JFileBegin / JFileEnd bracket an
-   `include`d file.  A year directive in force in the including file survives an include: a file with
-   no year directive, with one left open, or with a closed `apply year` gives back exactly the state
-   it found, so year-less dates after the include are read as before it. ---- *)
-Theorem include_keeps_year_directive : forall st yr evs evs',
-  only_queries evs -> only_queries evs' ->
+   `include`d file; file_body evs: evs is what one file may contain (year directives, `end apply`,
+   transactions, whole included files, in any number and order).  An included file gives back
+   EXACTLY the state it found - however many year directives it leaves open (at end of file every
+   entry of the file's own stack is undone, newest first) - so a year directive in force in the
+   including file survives every include and year-less dates after it are read as before it.
+   (Before /repo cbfca66 [F106] only the newest entry was undone: `Y 2021` / include {`Y 2018` ..
+   `Y 2019`} / `07/04` was read as 2018-07-04.) ---- *)
+Theorem include_returns_the_state_it_found : forall evs st,
+  file_body evs -> final_state st (JFileBegin :: evs ++ [JFileEnd]) = st.
+Proof. intros evs st B. apply include_exact. exact B. Qed.
+Print Assumptions include_returns_the_state_it_found.
+
+(* instances: no directive, one or two left open, a closed `apply year`, a nested include *)
+Theorem include_keeps_year_directive : forall st y1 y2 evs evs' evs'',
+  only_queries evs -> only_queries evs' -> only_queries evs'' ->
   final_state st (JFileBegin :: evs ++ [JFileEnd]) = st /\
-  final_state st (JFileBegin :: JYear yr :: evs ++ [JFileEnd]) = st /\
-  final_state st (JFileBegin :: JYear yr :: evs ++ JEnd :: evs' ++ [JFileEnd]) = st.
+  final_state st (JFileBegin :: (JYear y1 :: evs) ++ [JFileEnd]) = st /\
+  final_state st (JFileBegin :: (JYear y1 :: evs ++ JYear y2 :: evs') ++ [JFileEnd]) = st /\
+  final_state st (JFileBegin :: (JYear y1 :: evs ++ JEnd :: evs') ++ [JFileEnd]) = st /\
+  final_state st (JFileBegin :: (JYear y1 :: JFileBegin :: (JYear y2 :: evs) ++ JFileEnd :: evs') ++ [JFileEnd]) = st.
 Proof.
-  intros st yr evs evs' H H'. split; [apply include_plain_file; exact H|].
-  split; [apply include_one_open; exact H | apply include_closed_apply; assumption].
+  intros st y1 y2 evs evs' evs'' H H' H''.
+  assert (Q : forall l, only_queries l -> file_body l) by exact file_body_queries.
+  assert (A : forall a l l', file_body l' -> only_queries l -> file_body (l ++ a :: l') -> file_body (l ++ a :: l')) by auto.
+  assert (App : forall l l', only_queries l -> file_body l' -> file_body (l ++ l')).
+  { intros l l' Hl B. induction Hl as [|e l -> _ IH]; [exact B | constructor; exact IH]. }
+  repeat split; apply include_exact.
+  - apply Q; exact H.
+  - constructor. apply Q; exact H.
+  - constructor. apply App; [exact H|]. constructor. apply Q; exact H'.
+  - constructor. apply App; [exact H|]. constructor. apply Q; exact H'.
+  - constructor. constructor; [constructor; apply Q; exact H | apply Q; exact H'].
 Qed.
 Print Assumptions include_keeps_year_directive.
-
-(* ---- finding F106: the statement "an included file never changes the including file's current
-   date" is FALSE of the faithful model: only the newest entry of the file's stack is unwound at end
-   of file, so a file that leaves two year directives open leaves the includer in the year of the
-   first (Y 2021 / include {Y 2018 .. Y 2019} / 07/04 is read as 2018-07-04). ---- *)
-Theorem include_restores_clock_refuted :
-  exists st evs, es_outer st = [] /\ es_stack st = [(2021, 6, 15)] /\
-    es_cur (final_state st (JFileBegin :: evs ++ [JFileEnd])) <> es_cur st.
-Proof.
-  exists (mkEpoch (2021, 12, 31) [(2021, 6, 15)] []), [JYear 2018; JQuery; JYear 2019; JQuery].
-  split; [reflexivity|]. split; [reflexivity|]. vm_compute. discriminate.
-Qed.
-Print Assumptions include_restores_clock_refuted.
-
-Theorem include_two_open_directives_leak : forall st y1 y2 evs evs',
-  only_queries evs -> only_queries evs' ->
-  es_cur (final_state st (JFileBegin :: JYear y1 :: evs ++ JYear y2 :: evs' ++ [JFileEnd])) = (y1, 12, 31).
-Proof. exact include_two_open. Qed.
-Print Assumptions include_two_open_directives_leak.
-
